@@ -26,9 +26,10 @@ def run(tier, seed, work, replay):
     E.tlc_export = export
     # as-built negative control: a filter that only looks at the first two characters is not closed under the
     # dot-segment removal of the redirecting step (TLC must find "/./\\host")
-    r = E.tlc(work, "KMWeb", "Neg_KMWeb_C17_PrefixOnly.cfg", timeout=300, tag="neg-prefixonly")
-    if not r["violated"]:
-        raise E.Inconclusive("negative control Neg_KMWeb_C17_PrefixOnly found no violation")
+    for neg in ("Neg_KMWeb_C17_PrefixOnly.cfg", "Neg_KMWeb_C17_CutsAtHash.cfg"):
+        r = E.tlc(work, "KMWeb", neg, timeout=300, tag="neg-" + neg)
+        if not r["violated"]:
+            raise E.Inconclusive("negative control %s found no violation" % neg)
     try:
         res, evs = tablecheck.run_table(
             "C17", tier, seed, work, "KMWeb", ["MC_KMWeb_C17%s.cfg" % suffix], "Gen_KMWeb", "Gen_KMWeb_C17%s.cfg" % suffix,
@@ -37,7 +38,7 @@ def run(tier, seed, work, replay):
             lambda e: (e["case"]["handler"], tuple(e["case"]["dest"]), e["out"]["profile"]))
     finally:
         E.tlc_export = orig
-    res.cov["rule"] = ("all destination strings over 15 character classes up to length %d and over {slash, backslash, dot, host, ?} up "
+    res.cov["rule"] = ("all destination strings over 15 character classes up to length %d and over {slash, backslash, dot, host, ?, #} up "
                        "to length %d through the login handler (the redirecting step's dot-segment removal is part of the model), all "
                        "up to length 2 and the dangerous prefixes + host through every bound redirecting handler; the guard "
                        "is evaluated on the classes of the OBSERVED Location header (after net/http's CR/LF->space wire "
